@@ -427,6 +427,12 @@ def run(case, stats=None):
                     push(R.ravel(), "".join(M), op)
                 elif name == "m_copy":
                     push(R.copy(), list(M), op, kind="matrix")
+                elif name == "m_reencode":
+                    # to plain text and back to the array's own encoding: the same rows
+                    from bionumpy.encoded_array import change_encoding
+                    plain = change_encoding(R, bnp.encodings.BaseEncoding)
+                    push(plain, list(M), op, check_encoding=False, keep=False, kind="matrix")
+                    push(change_encoding(plain, enc), list(M), op, kind="matrix")
                 elif name == "m_eq_char":
                     c = alphabet[op["c"] % len(alphabet)]
                     res = (R != c) if op.get("ne") else (R == c)
@@ -569,6 +575,7 @@ def op_strategy(with_matrix=False):
         st.builds(lambda s: {"op": "m_ravel", "on": "matrix", "src": s}, src),
         st.builds(lambda s: {"op": "m_ravel", "on": "matrix", "src": s}, src),
         st.builds(lambda s: {"op": "m_copy", "on": "matrix", "src": s}, src),
+        st.builds(lambda s: {"op": "m_reencode", "on": "matrix", "src": s}, src),
         st.builds(lambda s, c, ne: {"op": "m_eq_char", "on": "matrix", "src": s, "c": c, "ne": int(ne)}, src, st.integers(0, 25), st.booleans()),
         st.builds(lambda s, t: {"op": "m_concat", "on": "matrix", "src": s, "src2": t}, src, src),
     ]
